@@ -167,12 +167,11 @@ func c19freeRunning(c *core.Ctx) {
 	}
 }
 
-// c19traversal: the library's other parallel operation. A subset of C13's scenarios (<= 3 services, no root
-// selection, no or one failing visit, every concurrency limit) is explored here for deadlocks, leaked
+// c19traversal: the library's other parallel operation. A subset of C13's scenarios (<= 3 services, with and without root selection, no or one failing visit, every concurrency limit) is explored here for deadlocks, leaked
 // goroutines and data races; the ordering clauses are C13's.
 func c19traversal(c *core.Ctx) {
 	for _, s := range c13scenarios(c.Quick()) {
-		if s.d.n > 3 || len(s.roots) > 0 || len(s.errs) > 1 {
+		if s.d.n > 3 || len(s.errs) > 1 || (len(s.roots) > 0 && len(s.errs) > 0) {
 			continue
 		}
 		s := s
